@@ -13,7 +13,7 @@ PROP = dict(
     level_text="Theorems (Coq, no axioms) over every list of (thread, atomic action) with every nondeterministic choice (which superset entry is hit, setRange visit order, context cancellation, which entries expire): every cached entry equals the remote slice (invariant preserved by every action); every completed GetRange returns exactly the remote bytes of its range or an error, and an error only when the read is not inside the file, its own remote fetch failed, or its context was cancelled; a failed fetch leaves the cache unchanged; reads reaching past the end (or negative / int64-overflowing) are refused in every state; the cache stays an antichain so setRange is order-independent. Tie: the real RangeCache is run on all histories of length <=2 over the full operation alphabet of a 6-byte file, length 3 over a reduced alphabet, length 4 over a 4-byte file (longer in thorough), random long histories, and concurrent readers (thorough: under -race); HTTPSingleFileRemoteReaderAt.ReadAt is run against a loopback HTTP server that answers per request with 206, error statuses with long bodies, ignored ranges, truncated bodies or dropped connections; each observation is judged by the property oracle and sampled histories (replies + cache contents after each step) by the acceptance predicate proved to imply the property.",
     level_note="Trusted: Coq kernel; the hand-written model C17_RC.v of range-cache.go (critical sections of rc.mu as atomic actions; Go map iteration as a free choice), tied by the runs above; sync.RWMutex gives mutual exclusion of writers and readers; SetRange values are truthful and not mutated by the caller (no caller in the repository uses SetRange); a remote fetch that reports success filled the buffer with the remote bytes. Real goroutine interleavings are sampled, not enumerated. remote-file.go's HTTP fetch function is outside the model (it is the 'remote'): the premise that a fetch reporting success delivered the file's bytes is checked on the real HTTPSingleFileRemoteReaderAt against a loopback server that misbehaves per request (oracle only).",
     design_ref="5 (C17)",
-    trusted=["model C17_RC.v of range-cache/range-cache.go (hand-written; tied by exhaustive small-scope, random and concurrent runs)",
+    trusted=["translator gen/c17.go (the boolean range predicates and argument checks of range-cache.go, expression by expression)", "model C17_RC.v of range-cache/range-cache.go (hand-written; tied by exhaustive small-scope, random and concurrent runs)",
              "sync.RWMutex: writers exclusive, readers do not modify the cache"] + COMMON_TRUSTED,
     assumptions=["file size fits int64 (premise size_fits)", "GetRange/SetRange arguments are int64 values",
                  "SetRange callers pass the remote's bytes (truthful)", "a fetch that returns nil error filled the buffer with the remote bytes"],
